@@ -892,7 +892,9 @@ func (m *MutableOverlayWorld) AddTag(id b6.FeatureID, tag b6.Tag) error {
 			m.index.Add(f, []string{tokenAfter})
 		}
 	} else {
-		base := m.base.FindFeatureByID(id)
+		// Look the feature up via the overlay, rather than the base, to
+		// include tags modified without copying the feature.
+		base := m.FindFeatureByID(id)
 		if base == nil {
 			return fmt.Errorf("No feature with ID %s", id)
 		}
@@ -902,6 +904,7 @@ func (m *MutableOverlayWorld) AddTag(id b6.FeatureID, tag b6.Tag) error {
 			m.features.AddFeature(f)
 			m.references.AddFeature(f)
 			m.index.Add(f, TokensForFeature(WrapFeature(f, m)))
+			delete(m.tags, id)
 		} else {
 			m.tags.ModifyOrAddTag(id, tag)
 		}
@@ -918,7 +921,9 @@ func (m *MutableOverlayWorld) RemoveTag(id b6.FeatureID, key string) error {
 		}
 		f.RemoveTag(key)
 	} else {
-		base := m.base.FindFeatureByID(id)
+		// Look the feature up via the overlay, rather than the base, to
+		// include tags modified without copying the feature.
+		base := m.FindFeatureByID(id)
 		if base == nil {
 			return fmt.Errorf("No feature with ID %s", id)
 		}
@@ -929,6 +934,7 @@ func (m *MutableOverlayWorld) RemoveTag(id b6.FeatureID, key string) error {
 				m.features.AddFeature(f)
 				m.references.AddFeature(f)
 				m.index.Add(f, TokensForFeature(WrapFeature(f, m)))
+				delete(m.tags, id)
 			} else {
 				m.tags.RemoveTag(id, key)
 			}
